@@ -38,7 +38,7 @@ func (p IP4) String() string {
 }
 
 func (p IP4) IsValid() error {
-	if n := len(p); n >= 20 && n >= p.IHL() && n >= p.TotalLen() {
+	if n := len(p); n >= 20 && p.IHL() >= 20 && n >= p.IHL() && p.TotalLen() >= p.IHL() && n >= p.TotalLen() {
 		return nil
 	}
 	if n := len(p); n < 20 || n < p.IHL() {
